@@ -167,9 +167,18 @@ def real_case(s):
                         what = f"text/attribute written with {regname}.REGISTRY[{k!r}] is read back differently"
                         obs, exp = show_text(t) + " / " + show(a), tok(s)
                 fails.append(dict(what=what, kind="formatter", kf=None, observed=obs, expected=exp))
+    memo = {}
+
+    def pb(text, quoted):
+        # most strings are written unchanged by all three substitutions: parse each distinct document once
+        key = (text, quoted)
+        if key not in memo:
+            memo[key] = parse_back(text, quoted)
+        return memo[key]
+
     for name, o in (("xml", xml), ("html", html), ("html5", html5)):
         q = E.quoted_attribute_value(o)
-        t, a = parse_back(o, q)
+        t, a = pb(o, q)
         out += [show_text(t), tok(q), show(a)]
         # --- oracle ---
         if "<" in o or ">" in o:
@@ -192,13 +201,13 @@ def real_case(s):
             br.add("classifier-hit-but-roundtrip-ok:attr")
     # the readers on the raw string (what formatter=None writes): validates the reader models on unescaped input
     if "<" not in s:
-        t, _ = parse_back(s, '""')
+        t, a = pb(s, quote)
         out.append(show_text(t))
         if t is not None and t.endswith("RUNAWAY"):
             br.add("reader:runaway")
     else:
         out.append("skip")
-    _, a = parse_back("", quote)
+        _, a = pb("", quote)
     out.append(show(a))
     if not (len(quote) >= 2 and quote[0] == quote[-1] and quote[0] in "\"'" and quote[0] not in quote[1:-1]):
         fails.append(dict(what="quoted_attribute_value(s) is not a well-formed quoted value", kind="quote", kf=None, observed=tok(quote)))
@@ -363,10 +372,17 @@ def _formatter(spec):
     kind = spec["kind"]
     if kind in ("name", "default"):
         name = spec.get("name", "minimal") if kind == "name" else "minimal"
-        f = HTMLFormatter.REGISTRY[name]
+        xml = bool(spec.get("xml"))
+        f = (XMLFormatter if xml else HTMLFormatter).REGISTRY[name]
         arg = name
-        conf = {"script", "style"}
-        line = f"c09 fmt h {0 if name is None else 1} {tok(name or '')}"
+        conf = set() if xml else {"script", "style"}
+        line = f"c09 fmtstr {1 if xml else 0} key {0 if name is None else 1} {tok(name or '')}"
+    elif kind == "callable":
+        xml = bool(spec.get("xml"))
+        arg = getattr(E, spec["fn"])
+        f = (XMLFormatter if xml else HTMLFormatter)(entity_substitution=arg)  # what formatter_for_name is documented to build
+        conf = set() if xml else {"script", "style"}
+        line = f"c09 fmtstr {1 if xml else 0} callable {FN_CODE[spec['fn']]} -"
     elif kind == "registry":
         reg = XMLFormatter.REGISTRY if spec["reg"] == "x" else HTMLFormatter.REGISTRY
         f = reg[spec["name"]]
@@ -421,7 +437,14 @@ def run_scenario(steps):
             tag["t"] = s
             tag.string = s
             soup.append(tag)
-        sub_t = f.substitute(tag.string)
+        if spec.get("xml"):
+            tag.known_xml = True  # formatter_for_name then consults XMLFormatter.REGISTRY / builds an XMLFormatter
+        # through the glue: output_ready -> format_string -> formatter_for_name -> Formatter.substitute
+        sub_t = tag.string.output_ready() if spec["kind"] == "default" else tag.string.output_ready(formatter=arg)
+        direct = f.substitute(tag.string)
+        if direct != sub_t:
+            fails.append(dict(step=i, what="NavigableString.output_ready(formatter) differs from the Formatter's substitute()", kf=None,
+                              observed=tok(sub_t), expected=tok(direct)))
         sub_a = f.attribute_value(s)
         rendered = tag.decode() if spec["kind"] == "default" else tag.decode(formatter=arg)
         corr.append((f"{line} {tok(parent)} {tok(s)}", tok(sub_t)))
@@ -454,7 +477,8 @@ def run_scenario(steps):
         if t_back != s:
             bad("element text is read back differently (the parent is not one of the formatter's cdata_containing_tags)",
                 show_text(t_back), tok(s), sub_t, classify_html5_text(sub_t) if fn == 3 else ())
-        elif spec["kind"] in ("name", "default") and parent == parent.lower():
+        elif spec["kind"] in ("name", "default", "callable") and parent == parent.lower() and parent not in ("script", "style"):
+            # (html.parser reads the content of script/style raw: not a reader for substituted text — XML mode substitutes there)
             # and in place: what the parser reads from the rendered element itself
             back = BeautifulSoup(rendered, "html.parser").find(parent)
             txt = None if back is None else "".join(str(c) for c in back.contents if isinstance(c, NavigableString))
@@ -477,10 +501,16 @@ def scenarios(ctx):
             texts.append(s)
     html_specs = [{"kind": "default"}] + [{"kind": "name", "name": n} for n in ("minimal", "html", "html5", "html5-4.12", None)]
     xml_specs = [{"kind": "registry", "reg": "x", "name": n} for n in ("minimal", "html", None)]
+    glue_specs = ([{"kind": "name", "name": n, "xml": True} for n in ("minimal", "html", None)]
+                  + [{"kind": "callable", "fn": fn, "xml": x} for fn in ("substitute_xml", "substitute_html", "substitute_html5") for x in (False, True)])
     for s in texts:
         for spec in html_specs + xml_specs:
             for parent in PARENTS + EXEMPT_CANDIDATES:
                 yield "contexts", [dict(parent=parent, s=tok(s), formatter=spec)]
+    for s in texts[:10]:
+        for spec in glue_specs:
+            for parent in ("p", "script", "style", "textarea", "SCRIPT"):
+                yield "glue", [dict(parent=parent, s=tok(s), formatter=spec)]
     # the same with elements built by the parser (string classes of the builder: TemplateString, RubyTextString, Script, …)
     for s in texts[:12]:
         if "</" in s or "\r" in s or "\x00" in s:
@@ -516,7 +546,46 @@ def scenarios(ctx):
                         yield "histories", [b, a]
 
 
+def attr_form_checks(ctx, drv):
+    """attribute values as _format_tag meets them: None, str, list, tuple — key or key="…" """
+    from bs4 import BeautifulSoup
+    from bs4.formatter import HTMLFormatter
+    vals = [("absent", None), ("str", ""), ("str", "a<b&c"), ("str", "\"q\" 'r'"), ("list", ["a\"b", "c'<d"]), ("list", ["x"]), ("list", []),
+            ("tuple", ("é&lt;", ">")), ("list", ["&amp;", "≧̸"])]
+    lines, impl, cases = [], [], []
+    for name in ("minimal", "html", "html5", "html5-4.12", None):
+        for kind, v in vals:
+            if v == "" and HTMLFormatter.REGISTRY[name].empty_attributes_are_booleans:
+                continue  # that option turns "" into a bare key (Formatter.attributes) — rendering policy, C15
+            soup = BeautifulSoup("", "html.parser")
+            tag = soup.new_tag("p")
+            tag["t"] = v
+            rendered = tag.decode(formatter=name)
+            mk = "absent" if v is None else ("str" if kind == "str" else "list")
+            mv = "-" if v is None else (tok(v) if kind == "str" else (";".join(tok(x) for x in v) or "-"))
+            lines.append(f"c09 fmtattr h {0 if name is None else 1} {tok(name or '')} {tok('t')} {mk} {mv}")
+            impl.append(tok(rendered[3:-5]) if rendered.startswith("<p ") and rendered.endswith("></p>") else "unexpected:" + tok(rendered))
+            case = {"op": "attr-form", "formatter": name, "kind": kind, "value": v if v is None or kind == "str" else list(v)}
+            cases.append(case)
+            ctx.case(("attr-form", name, kind, repr(v)))
+            ctx.count("stream:attr-forms")
+            if name is not None and v is not None and any(x.strip() for x in ([v] if kind == "str" else v)):
+                want = v if kind == "str" else " ".join(v)
+                back = BeautifulSoup(rendered, "html.parser").find("p")
+                got = None if back is None else back.get("t")
+                if got != want:
+                    ctx.violation("an attribute value (%s) rendered by Tag.decode(formatter=%r) is read back differently" % (kind, name),
+                                  case=case | {"rendered": tok(rendered)}, expected=tok(want), observed=show(got), stream="attr-forms")
+    rep = drv.ask(lines)
+    for l, a, b, c in zip(lines, impl, rep, cases):
+        if a != b:
+            ctx.corr_disagreements += 1
+            ctx.violation("model and implementation disagree (attribute rendering)", case=c | {"line": l}, observed=a, model=b,
+                          stream="attr-forms-correspondence", no_failing_input=True)
+
+
 def context_checks(ctx, drv):
+    attr_form_checks(ctx, drv)
     lines, impl, where = [], [], []
     for stream, steps in scenarios(ctx):
         fails, corr = run_scenario(steps)
